@@ -32,8 +32,16 @@ func (c *Collection) Condense(treatErrorAsTerminal bool) (Provider, error) {
 	if len(c.contents) == 0 {
 		return c, nil
 	}
-	last := c.contents[len(c.contents)-1]
+	// the last provider must be included; mark a copy of it in a copy of the
+	// collection, the original provider may be shared with other collections
+	last := c.contents[len(c.contents)-1].copy()
 	last.required = true
+	{
+		contents := make([]*provider, len(c.contents))
+		copy(contents, c.contents)
+		contents[len(contents)-1] = last
+		c = &Collection{name: c.name, contents: contents}
+	}
 	lastType := reflect.TypeOf(last.fn)
 	if isWrapper(lastType, last.fn) {
 		return nil, fmt.Errorf("Condense cannot operate on collections whose last element is a wrap function")
